@@ -112,10 +112,13 @@ def next_to_ref(d, name, vkind):
     def body(x, v, a):
         plain = {"definitions": {"t": {"maximum": a}}, "$ref": "#/definitions/t"}
         loud = dict(plain)
-        loud[name] = v
+        loud[name] = v                         # written after $ref
+        early = {name: v}
+        early.update(plain)                    # written before $ref (key order must not matter)
         p = sigs(d, {"properties": {"k": plain}, "definitions": plain["definitions"]}, x)
         q = sigs(d, {"properties": {"k": loud}, "definitions": plain["definitions"]}, x)
-        return multiset_eq(p, q), ("valid" if not p else "invalid")
+        r = sigs(d, {"properties": {"k": early}, "definitions": plain["definitions"]}, x)
+        return multiset_eq(p, q) and multiset_eq(p, r), ("valid" if not p else "invalid")
 
     return Spec([("x", KIND_TYPES["obj_int"]), ("v", KIND_TYPES[vkind]), ("a", int)], pre, body, tags=["valid", "invalid"])
 
